@@ -117,6 +117,44 @@ package netconf
 //@   at call! buildPayload#1 assert #the-get-config-element-carries-exactly-the-built-parts arg0 == box("*netconf.getConfig", getConfigElem) && getConfigElem.Filter == filterElem && getConfigElem.Defaults == defaultsElem
 //@   at return assert #the-built-request-is-returned result.1 == nil ==> result.0 == netconfInput && result.0.MessageID == old(d.messageID)
 
+// the other RPCs: each builder names the caller's datastore(s) / carries the caller's content in its own place, and each
+// public method sends the request its builder made (builtMsg: ghost - the message the builder returned)
+//@ ghost builtMsg ref local
+//@ func (*Driver).buildEditConfigElem [C03]
+//@   at call! buildTargetElem#1 assert #the-callers-datastore-names-the-target arg0 == old(target)
+//@   at call! buildPayload#1 assert #the-edit-config-element-carries-the-callers-config arg0 == box("*netconf.editConfig", editConfigElem) && editConfigElem.Payload == old(config) && editConfigElem.Target != nil && editConfigElem.Target.Source != nil && editConfigElem.Target.Source.XMLName.Local == old(target)
+//@   at return assert #the-built-request-is-returned result == netconfInput && result.MessageID == old(d.messageID)
+//@ func (*Driver).buildCopyConfigElem [C03]
+//@   at call! buildTargetElem#1 assert #target-names-the-target arg0 == old(target)
+//@   at call! buildSourceElem#1 assert #source-names-the-source arg0 == old(source)
+//@   at call! buildPayload#1 assert #source-and-target-are-not-swapped arg0 == box("*netconf.copyConfig", copyConfigElem) && copyConfigElem.Target != nil && copyConfigElem.Target.Source != nil && copyConfigElem.Target.Source.XMLName.Local == old(target) && copyConfigElem.Source != nil && copyConfigElem.Source.Source != nil && copyConfigElem.Source.Source.XMLName.Local == old(source)
+//@   at return assert #the-built-request-is-returned result == netconfInput
+//@ func (*Driver).buildDeleteConfigElem [C03]
+//@   at call! buildTargetElem#1 assert #the-callers-datastore-names-the-target arg0 == old(target)
+//@   at call! buildPayload#1 assert #the-element-carries-the-target arg0 == box("*netconf.deleteConfig", deleteConfigElem) && deleteConfigElem.Target != nil && deleteConfigElem.Target.Source != nil && deleteConfigElem.Target.Source.XMLName.Local == old(target)
+//@   at return assert #the-built-request-is-returned result == netconfInput
+//@ func (*Driver).buildLockElem [C03]
+//@   at call! buildTargetElem#1 assert #the-callers-datastore-names-the-target arg0 == old(target)
+//@   at call! buildPayload#1 assert #the-element-carries-the-target arg0 == box("*netconf.lock", lockElem) && lockElem.Target != nil && lockElem.Target.Source != nil && lockElem.Target.Source.XMLName.Local == old(target)
+//@   at return assert #the-built-request-is-returned result == netconfInput
+//@ func (*Driver).buildUnlockElem [C03]
+//@   at call! buildTargetElem#1 assert #the-callers-datastore-names-the-target arg0 == old(target)
+//@   at call! buildPayload#1 assert #the-element-carries-the-target arg0 == box("*netconf.unlock", unlockElem) && unlockElem.Target != nil && unlockElem.Target.Source != nil && unlockElem.Target.Source.XMLName.Local == old(target)
+//@   at return assert #the-built-request-is-returned result == netconfInput
+//@ func (*Driver).buildValidateElem [C03]
+//@   at call! buildSourceElem#1 assert #the-callers-datastore-names-the-source arg0 == old(source)
+//@   at call! buildPayload#1 assert #the-element-carries-the-source arg0 == box("*netconf.validate", validateElem) && validateElem.Source != nil && validateElem.Source.Source != nil && validateElem.Source.Source.XMLName.Local == old(source)
+//@   at return assert #the-built-request-is-returned result == netconfInput
+//@ func (*Driver).buildCommitElem [C03]
+//@   at call! buildPayload#1 assert #each-commit-setting-in-its-own-place arg0 == box("*netconf.commit", commitElem) && commitElem.Persist == old(persist) && commitElem.PersistID == old(persistID) && (old(confirmed) <==> commitElem.Confirmed != nil) && (old(timeout) > 0 && old(timeout) <= 9223372036854775807 ==> commitElem.ConfirmedTimeout == decimal(old(timeout))) && (old(timeout) == 0 ==> commitElem.ConfirmedTimeout == "")
+//@   at return assert #the-built-request-is-returned result == netconfInput
+//@ func (*Driver).buildDiscardElem [C03]
+//@   at call! buildPayload#1 assert #a-discard-element typeis(arg0, "*netconf.discard")
+//@   at return assert #the-built-request-is-returned result == netconfInput
+//@ func (*Driver).buildRPCElem [C03]
+//@   at call! buildPayload#1 assert #the-callers-payload-is-the-payload arg0 == box("string", inj(old(filter)))
+//@   at return assert #the-built-request-is-returned result == netconfInput
+
 // ---- C07 ----------------------------------------------------------------------------------------------------------------
 //@ func (*Driver).Close [C07]
 //@   ensures #channel-closed implClosed
@@ -212,26 +250,48 @@ package netconf
 //@   loop 1 invariant optlog == old(optlog) ++ applied(options, box("*netconf.OperationOptions", o), rangeindex + 1)
 //@   ensures #defaults result.1 == nil && len(options) == 0 ==> result.0.Timeout == -1 && result.0.FilterType == "subtree"
 //@   loop 1 invariant rangeindex == -1 ==> o.Timeout == -1 && o.FilterType == "subtree"
-//@ func (*Driver).Discard [C05]
+//@ func (*Driver).Discard [C05 C03]
+//@   after call buildDiscardElem#1 set builtMsg = result
+//@   at call! sendRPC#1 assert [C03] #the-built-request-is-what-is-sent arg0 == builtMsg
 //@   at call! sendRPC#1 assert #sent-with-the-default-operation-options-so-the-connection-wide-timeout-applies arg1 != nil && arg1.Timeout == -1
-//@ func (*Driver).CopyConfig [C05]
+//@ func (*Driver).CopyConfig [C05 C03]
+//@   at call! buildCopyConfigElem#1 assert [C03] #source-and-target-each-in-its-place arg0 == old(source) && arg1 == old(target)
+//@   after call buildCopyConfigElem#1 set builtMsg = result
+//@   at call! sendRPC#1 assert [C03] #the-built-request-is-what-is-sent arg0 == builtMsg
 //@   at call! sendRPC#1 assert #sent-with-the-default-operation-options-so-the-connection-wide-timeout-applies arg1 != nil && arg1.Timeout == -1
-//@ func (*Driver).DeleteConfig [C05]
+//@ func (*Driver).DeleteConfig [C05 C03]
+//@   at call! buildDeleteConfigElem#1 assert [C03] #the-callers-datastore arg0 == old(target)
+//@   after call buildDeleteConfigElem#1 set builtMsg = result
+//@   at call! sendRPC#1 assert [C03] #the-built-request-is-what-is-sent arg0 == builtMsg
 //@   at call! sendRPC#1 assert #sent-with-the-default-operation-options-so-the-connection-wide-timeout-applies arg1 != nil && arg1.Timeout == -1
-//@ func (*Driver).EditConfig [C05]
+//@ func (*Driver).EditConfig [C05 C03]
+//@   at call! buildEditConfigElem#1 assert [C03] #datastore-and-config-each-in-its-place arg0 == old(target) && arg1 == old(config)
+//@   after call buildEditConfigElem#1 set builtMsg = result
+//@   at call! sendRPC#1 assert [C03] #the-built-request-is-what-is-sent arg0 == builtMsg
 //@   at call! sendRPC#1 assert #sent-with-the-default-operation-options-so-the-connection-wide-timeout-applies arg1 != nil && arg1.Timeout == -1
-//@ func (*Driver).Lock [C05]
+//@ func (*Driver).Lock [C05 C03]
+//@   at call! buildLockElem#1 assert [C03] #the-callers-datastore arg0 == old(target)
+//@   after call buildLockElem#1 set builtMsg = result
+//@   at call! sendRPC#1 assert [C03] #the-built-request-is-what-is-sent arg0 == builtMsg
 //@   at call! sendRPC#1 assert #sent-with-the-default-operation-options-so-the-connection-wide-timeout-applies arg1 != nil && arg1.Timeout == -1
-//@ func (*Driver).Unlock [C05]
+//@ func (*Driver).Unlock [C05 C03]
+//@   at call! buildUnlockElem#1 assert [C03] #the-callers-datastore arg0 == old(target)
+//@   after call buildUnlockElem#1 set builtMsg = result
+//@   at call! sendRPC#1 assert [C03] #the-built-request-is-what-is-sent arg0 == builtMsg
 //@   at call! sendRPC#1 assert #sent-with-the-default-operation-options-so-the-connection-wide-timeout-applies arg1 != nil && arg1.Timeout == -1
-//@ func (*Driver).Validate [C05]
+//@ func (*Driver).Validate [C05 C03]
+//@   at call! buildValidateElem#1 assert [C03] #the-callers-datastore arg0 == old(source)
+//@   after call buildValidateElem#1 set builtMsg = result
+//@   at call! sendRPC#1 assert [C03] #the-built-request-is-what-is-sent arg0 == builtMsg
 //@   at call! sendRPC#1 assert #sent-with-the-default-operation-options-so-the-connection-wide-timeout-applies arg1 != nil && arg1.Timeout == -1
 // (BETA method: it indexes the sub-matches of two regular expressions without checking that they matched, so a reply
 // without <subscription-result> / <subscription-id> panics - reply-shape robustness, outside C05; see DESIGN.md I.6)
 //@ func (*Driver).EstablishPeriodicSubscription [C05]
 //@   nosafety
 //@   at call! sendRPC#1 assert #sent-with-the-default-operation-options-so-the-connection-wide-timeout-applies arg1 != nil && arg1.Timeout == -1
-//@ func (*Driver).Commit [C05]
+//@ func (*Driver).Commit [C05 C03]
+//@   at call! buildCommitElem#1 assert [C03] #each-commit-option-in-its-place arg0 == op.CommitConfirmed && arg1 == op.CommitConfirmTimeout && arg2 == op.CommitConfirmedPersist && arg3 == op.CommitConfirmedPersistID
+//@   at call! sendRPC#1 assert [C03] #the-built-request-is-what-is-sent arg0 == m
 //@   at call! sendRPC#1 assert #sent-with-options-built-from-the-callers-options arg1 != nil && isnew(arg1) && optlog == old(optlog) ++ applied(opts, box("*netconf.OperationOptions", arg1), len(opts)) && (len(opts) == 0 ==> arg1.Timeout == -1)
 //@ func (*Driver).Get [C05 C03]
 //@   at call! buildGetElem#1 assert [C03] #the-callers-filter-is-built-with-the-operations-filter-type arg0 == old(filter) && arg1 == op.FilterType
@@ -241,7 +301,10 @@ package netconf
 //@   at call! buildGetConfigElem#1 assert [C03] #datastore-filter-type-and-defaults-go-to-the-builder-each-in-its-place arg0 == old(source) && arg1 == op.Filter && arg2 == op.FilterType && arg3 == op.DefaultType
 //@   at call! sendRPC#1 assert [C03] #the-built-request-is-what-is-sent arg0 == m
 //@   at call! sendRPC#1 assert #sent-with-options-built-from-the-callers-options arg1 != nil && isnew(arg1) && optlog == old(optlog) ++ applied(opts, box("*netconf.OperationOptions", arg1), len(opts)) && (len(opts) == 0 ==> arg1.Timeout == -1)
-//@ func (*Driver).RPC [C05]
+//@ func (*Driver).RPC [C05 C03]
+//@   at call! buildRPCElem#1 assert [C03] #the-callers-payload-option arg0 == op.Filter
+//@   after call buildRPCElem#1 set builtMsg = result
+//@   at call! sendRPC#1 assert [C03] #the-built-request-is-what-is-sent arg0 == builtMsg
 //@   at call! sendRPC#1 assert #sent-with-options-built-from-the-callers-options arg1 != nil && isnew(arg1) && optlog == old(optlog) ++ applied(opts, box("*netconf.OperationOptions", arg1), len(opts)) && (len(opts) == 0 ==> arg1.Timeout == -1)
 
 // the polling goroutine of sendRPC asks the reply store for exactly the id of its own request
